@@ -82,6 +82,7 @@ def run_obligation(res, prop, st_name, N, findings, scenario="single", cfg=None)
     judges = P.JUDGES[prop]
     skip = scenario_fixed_flags(scenario)
     needs_inverse = scenario == "inverse3"
+    shapemap = st.get("mode") == "shapemap"
 
     def fn(ex):
         flags = {}
@@ -108,8 +109,11 @@ def run_obligation(res, prop, st_name, N, findings, scenario="single", cfg=None)
                 syms[key] = T.build_symbolic(ex, st, N, r["flags"]["inverse_paths"], reverse=(r["graph"] == "R"))
             r["sym"] = syms[key]
             try:
+                extra = dict(r["extra"])
+                if shapemap:
+                    extra["shape_map_raw"] = R.shapemap_text(st["rows"], None, representative=True)
                 r["text"], r["shacl"] = T.run_real_stage(r["sym"]["profile"], r["sym"]["counts"], r["flags"], r["t"], r["report_mode"], r["decimals"],
-                                                         r["or_flags"], r["want_shacl"], r["extra"])
+                                                         r["or_flags"], r["want_shacl"], extra)
                 r["tag"], r["err"] = "OK", None
             except HarnessError:
                 raise
@@ -180,14 +184,17 @@ def run_obligation(res, prop, st_name, N, findings, scenario="single", cfg=None)
         if what is not None and len(res["violations"]) < 3:
             res["violations"].append(payload(ctx, vals, all_thr, what))
         # ---- end-to-end witness: every run of the scenario through the whole real pipeline on the concrete graph
-        triples = R.generate_triples(st["rows"], vals)
+        triples = R.generate_triples(st["rows"], vals, shapemap=shapemap)
         reals = []
         for r in runs:
             thr = thr_of.get(id(r["t"]), r["t"])
             doc = R.to_ntriples(T.reverse_triples(triples) if r["graph"] == "R" else triples)
+            extra = dict(r["extra"])
+            if shapemap:
+                extra["shape_map_raw"] = R.shapemap_text(st["rows"], vals)
             try:
                 with shims.real_code():
-                    rt, rs = T.run_real_pipeline(doc, r["flags"], thr, r["report_mode"], r["decimals"], r["or_flags"], r["want_shacl"], r["extra"])
+                    rt, rs = T.run_real_pipeline(doc, r["flags"], thr, r["report_mode"], r["decimals"], r["or_flags"], r["want_shacl"], extra)
                 reals.append(dict(tag="OK", text=rt, shacl=rs, thr=thr, run=r))
             except Exception as e:  # noqa
                 reals.append(dict(tag="EXC", text=None, shacl=None, thr=thr, run=r, err=type(e).__name__))
@@ -202,7 +209,8 @@ def run_obligation(res, prop, st_name, N, findings, scenario="single", cfg=None)
                 mismatch = "run %s:\n--- symbolic (instantiated)\n%s\n--- real pipeline\n%s" % (r["name"], inst, real["text"])
             elif r["want_shacl"] and not _same_graph(r["shacl"], real["shacl"]):
                 mismatch = "run %s: SHACL graphs differ\n%s\n---\n%s" % (r["name"], r["shacl"], real["shacl"])
-        problems = [] if any(x["tag"] == "EXC" for x in reals) else concrete_problems(prop, scenario, triples, reals, ctx["flags"], st["tags"], active, cfg)
+        inst_over = R.shapemap_instances(st["rows"], vals) if shapemap else None
+        problems = [] if any(x["tag"] == "EXC" for x in reals) else concrete_problems(prop, scenario, triples, reals, ctx["flags"], st["tags"], active, cfg, inst_over)
         if mismatch is not None:
             if problems and viol is None:
                 # a real regression in code that H-STAGE does not execute symbolically (profiler, tracker, readers, glue)
@@ -232,7 +240,7 @@ def _same_graph(a, b):
     return isomorphic(ga, gb)
 
 
-def concrete_problems(prop, scenario, triples, reals, flags, tags, active, cfg):
+def concrete_problems(prop, scenario, triples, reals, flags, tags, active, cfg, instances=None):
     from . import stage_props as P
     parsed = []
     for x in reals:
@@ -240,26 +248,32 @@ def concrete_problems(prop, scenario, triples, reals, flags, tags, active, cfg):
             parsed.append(shexc.parse(x["text"]))
         except shexc.ShExSyntaxError as e:
             return ["ShExC output does not parse: %s" % e]
-    return P.CONCRETE[prop](dict(triples=triples, reals=reals, schemas=parsed, flags=flags, tags=list(tags), active=active, scenario=scenario, cfg=cfg))
+    return P.CONCRETE[prop](dict(triples=triples, reals=reals, schemas=parsed, flags=flags, tags=list(tags), active=active, scenario=scenario, cfg=cfg,
+                                 instances=instances))
 
 
 def replay(args):
     """Concrete replay on the real, un-instrumented pipeline, judged by the concrete oracle."""
     st = _structure(args["structure"])
-    triples = R.generate_triples(st["rows"], args["values"])
+    shapemap = st.get("mode") == "shapemap"
+    triples = R.generate_triples(st["rows"], args["values"], shapemap=shapemap)
     cfg = args.get("cfg") or {}
     thrs = [float(x) for x in args["thresholds"]]
     runs = plan_runs(args["prop"], args["scenario"], args["flags"], thrs, cfg)
     reals = []
     for r in runs:
         doc = R.to_ntriples(T.reverse_triples(triples) if r["graph"] == "R" else triples)
+        extra = dict(r["extra"])
+        if shapemap:
+            extra["shape_map_raw"] = R.shapemap_text(st["rows"], args["values"])
         try:
-            rt, rs = T.run_real_pipeline(doc, r["flags"], r["t"], r["report_mode"], r["decimals"], r["or_flags"], r["want_shacl"], r["extra"])
+            rt, rs = T.run_real_pipeline(doc, r["flags"], r["t"], r["report_mode"], r["decimals"], r["or_flags"], r["want_shacl"], extra)
         except Exception as e:  # noqa
             print("extraction raised %s: %s [run %s]\ndocument:\n%s" % (type(e).__name__, e, r["name"], doc))
             return True
         reals.append(dict(tag="OK", text=rt, shacl=rs, thr=r["t"], run=r))
-    problems = concrete_problems(args["prop"], args["scenario"], triples, reals, args["flags"], st["tags"], set(args.get("active", [])), cfg)
+    problems = concrete_problems(args["prop"], args["scenario"], triples, reals, args["flags"], st["tags"], set(args.get("active", [])), cfg,
+                                 R.shapemap_instances(st["rows"], args["values"]) if shapemap else None)
     if problems:
         print("\n".join(problems[:5]))
         print("thresholds=%r flags=%r\ndocument:\n%s" % (thrs, args["flags"], R.to_ntriples(triples)))
